@@ -47,7 +47,7 @@ def run(c):
               "{no extra headers, Origin, Origin+preflight headers, Range}, on both entry points and the real binary; HEAD must mirror GET's status and headers with Content-Length of the GET body and no body; "
               "OPTIONS must be a bodiless 200/204 carrying grants that make the preflight succeed. Class = (path kind, method, header set, entry point); non-trivial = HEAD or OPTIONS.")
     rng = c.rng
-    ntrees = 8 if c.quick else 40
+    ntrees = 8 if c.quick else 120
     for kind in ("file", "dir-index", "dir-index-slash", "html-fallback", "builtin"):
         for m in ("HEAD", "OPTIONS"):
             c.need("%s x %s" % (kind, m))
